@@ -442,7 +442,7 @@ def check(case):
             want0 = float(np.real(lp + ref_ll_individual(s, 0, top)))
             case.close(P0(v_free.copy()), want0 if np.isfinite(np.real(lp)) else -np.inf, rtol=1e-6, atol=1e-8,
                        what='default (first individual) log-posterior')
-        if 'posterior_individuals' in case.checked and s['mech']['kind'] == 'analytic':
+        if 'posterior_individuals' in case.checked:
             with case.clause('gradient'):
                 i = s['probe'] % n_ids
                 P = ctrl.get_log_posterior(individual=ids[i])
@@ -452,7 +452,11 @@ def check(case):
                     lp_, top_ = ref_post(v)
                     return lp_ + ref_ll_individual(s, i, top_)
                 if np.isfinite(np.real(f(v_free))):
-                    case.close(g, ref.cgrad(f, v_free), rtol=1e-6, atol=1e-8, what='gradient of the individual posterior')
+                    gw = ref.cgrad(f, v_free)
+                    pk_ = s['mech']['kind'] == 'pkpd'
+                    case.close(g, gw, rtol=1e-5 if pk_ else 1e-6,
+                               atol=(1e-7 * float(np.max(np.abs(gw))) + 1e-8) if pk_ else 1e-8,
+                               what='gradient of the individual posterior')
     else:
         with case.clause('posterior_hierarchical'):
             P = ctrl.get_log_posterior()
@@ -468,12 +472,15 @@ def check(case):
             case.equal(P.get_id(unique=True), ids, 'unique ids (order of first appearance)')
             want_names = [ll_names[d] for _ in range(n_ids) for d in hd] + [top_names[k] for k in free_top]
             case.equal(P.get_parameter_names(), want_names, 'names of the hierarchical posterior')
-        if 'posterior_hierarchical' in case.checked and s['mech']['kind'] == 'analytic':
+        if 'posterior_hierarchical' in case.checked:
             with case.clause('gradient'):
                 P = ctrl.get_log_posterior()
                 if np.isfinite(np.real(ref_post(v_free)[0])):
                     sc, g = P.evaluateS1(v_free.copy())
-                    case.close(g, ref.cgrad(lambda v: ref_post(v)[0], v_free), rtol=1e-6, atol=1e-8,
+                    gw = ref.cgrad(lambda v: ref_post(v)[0], v_free)
+                    pk_ = s['mech']['kind'] == 'pkpd'
+                    case.close(g, gw, rtol=1e-5 if pk_ else 1e-6,
+                               atol=(1e-7 * float(np.max(np.abs(gw))) + 1e-8) if pk_ else 1e-8,
                                what='gradient of the hierarchical posterior')
 
     if s['mech']['kind'] == 'pkpd':
